@@ -1,5 +1,5 @@
 (* C02 correspondence cases: what the implementation answered, to be compared with the model *)
-From FB Require Export C02.Model C02.Encode C02.Frames C02.Class Base.Run.
+From FB Require Export C02.Model C02.Encode C02.Frames C02.Class C02.Decode C02.Facts Base.Run.
 From Coq Require Export Uint63.
 Local Open Scope Z_scope.
 
@@ -42,6 +42,121 @@ Definition unpacked (p : packed) : list N := unpack (N.to_nat (fst p)) (snd p).
 Definition lookup (tbl : list (list N)) (k : N) : list N := nth (N.to_nat k) tbl [].
 Inductive kanswer := KOk (bs : packed) | KErr | KPanic.
 
+
+(* ---- decidable equality of decoded classes (for the comparison decode(written) = facts(tree)) ---- *)
+Definition beq := str_eqb.
+Definition oeq {A} (e : A -> A -> bool) (a b : option A) : bool := opt_eqb e a b.
+Definition leq {A} (e : A -> A -> bool) (a b : list A) : bool := list_eqb e a b.
+Definition peq {A B} (ea : A -> A -> bool) (eb : B -> B -> bool) (a b : A * B) : bool := ea (fst a) (fst b) && eb (snd a) (snd b).
+Definition econst_eqb (a b : econst) : bool :=
+  match a, b with
+  | ECInt x, ECInt y | ECFloat x, ECFloat y | ECLong x, ECLong y | ECDouble x, ECDouble y => x =? y
+  | ECUtf8 x, ECUtf8 y => beq x y
+  | _, _ => false
+  end.
+Fixpoint elem_eqb (a b : elem) : bool :=
+  match a, b with
+  | EConst t c, EConst t' c' => N.eqb t t' && econst_eqb c c'
+  | EEnum x y, EEnum x' y' => beq x x' && beq y y'
+  | EClass x, EClass x' => beq x x'
+  | EAnnot t ps, EAnnot t' ps' =>
+      beq t t' && (fix go (l l' : list (bytes * elem)) : bool :=
+                     match l, l' with
+                     | [], [] => true
+                     | (n, v) :: r, (n', v') :: r' => beq n n' && elem_eqb v v' && go r r'
+                     | _, _ => false
+                     end) ps ps'
+  | EArray vs, EArray vs' =>
+      (fix go (l l' : list elem) : bool :=
+         match l, l' with
+         | [], [] => true
+         | v :: r, v' :: r' => elem_eqb v v' && go r r'
+         | _, _ => false
+         end) vs vs'
+  | _, _ => false
+  end.
+Definition pairs_eqb := leq (peq beq elem_eqb).
+Definition annotation_eqb : annotation -> annotation -> bool := peq beq pairs_eqb.
+Definition target_eqb (a b : target Z) : bool :=
+  match a, b with
+  | TTypeParameter t i, TTypeParameter t' i' | TSupertype t i, TSupertype t' i' | TFormalParameter t i, TFormalParameter t' i'
+  | TThrows t i, TThrows t' i' | TCatch t i, TCatch t' i' | TOffset t i, TOffset t' i' => N.eqb t t' && (i =? i')
+  | TTypeParameterBound t p q, TTypeParameterBound t' p' q' | TTypeArgument t p q, TTypeArgument t' p' q' => N.eqb t t' && (p =? p') && (q =? q')
+  | TEmpty t, TEmpty t' => N.eqb t t'
+  | TLocalVar t tb, TLocalVar t' tb' => N.eqb t t' && leq (peq (peq Z.eqb Z.eqb) Z.eqb) tb tb'
+  | _, _ => false
+  end.
+Definition ta_eqb (a b : type_annotation Z) : bool :=
+  target_eqb (ta_target a) (ta_target b) && leq (peq Z.eqb Z.eqb) (ta_path a) (ta_path b) && beq (ta_type a) (ta_type b) && pairs_eqb (ta_pairs a) (ta_pairs b).
+Definition fvti_eqb (a b : fvti) : bool :=
+  match a, b with
+  | FVSimple x, FVSimple y | FVUninit x, FVUninit y => x =? y
+  | FVObject x, FVObject y => beq x y
+  | _, _ => false
+  end.
+Definition fframe_eqb (a b : fframe) : bool :=
+  match a, b with
+  | FrSame, FrSame => true
+  | FrSame1 x, FrSame1 y => fvti_eqb x y
+  | FrChop x, FrChop y => x =? y
+  | FrAppend x, FrAppend y => leq fvti_eqb x y
+  | FrFull x y, FrFull x' y' => leq fvti_eqb x x' && leq fvti_eqb y y'
+  | _, _ => false
+  end.
+Definition lv_eqb (a b : Z * Z * bytes * bytes * Z) : bool := peq (peq (peq (peq Z.eqb Z.eqb) beq) beq) Z.eqb a b.
+Definition dattr0_eqb (a b : dattr0) : bool :=
+  match a, b with
+  | ADeprecated, ADeprecated | ASynthetic, ASynthetic => true
+  | ASignature x, ASignature y => beq x y
+  | AAnnotations v l, AAnnotations v' l' => Bool.eqb v v' && leq annotation_eqb l l'
+  | ATypeAnnotations v l, ATypeAnnotations v' l' => Bool.eqb v v' && leq ta_eqb l l'
+  | AStackMapTable l, AStackMapTable l' => leq (peq Z.eqb fframe_eqb) l l'
+  | ALineNumberTable l, ALineNumberTable l' => leq (peq Z.eqb Z.eqb) l l'
+  | ALocalVariableTable l, ALocalVariableTable l' | ALocalVariableTypeTable l, ALocalVariableTypeTable l' => leq lv_eqb l l'
+  | AUnknown n c, AUnknown n' c' => beq n n' && beq c c'
+  | _, _ => false
+  end.
+Definition cinner_eqb (a b : cinner) : bool :=
+  beq (ic_inner a) (ic_inner b) && oeq beq (ic_outer a) (ic_outer b) && oeq beq (ic_name a) (ic_name b) && (ic_flags a =? ic_flags b).
+Definition cmodule_eqb (a b : cmodule) : bool :=
+  beq (m_name a) (m_name b) && (m_flags a =? m_flags b) && oeq beq (m_version a) (m_version b)
+  && leq (fun x y => beq (rq_name x) (rq_name y) && (rq_flags x =? rq_flags y) && oeq beq (rq_version x) (rq_version y)) (m_requires a) (m_requires b)
+  && leq (fun x y => beq (ex_name x) (ex_name y) && (ex_flags x =? ex_flags y) && leq beq (ex_to x) (ex_to y)) (m_exports a) (m_exports b)
+  && leq (fun x y => beq (ex_name x) (ex_name y) && (ex_flags x =? ex_flags y) && leq beq (ex_to x) (ex_to y)) (m_opens a) (m_opens b)
+  && leq beq (m_uses a) (m_uses b)
+  && leq (fun x y => beq (pv_name x) (pv_name y) && leq beq (pv_with x) (pv_with y)) (m_provides a) (m_provides b).
+Definition cvalue_eqb (a b : cvalue) : bool :=
+  match a, b with
+  | CVInt x, CVInt y | CVFloat x, CVFloat y | CVLong x, CVLong y | CVDouble x, CVDouble y => x =? y
+  | CVString x, CVString y => beq x y
+  | _, _ => false
+  end.
+Definition dcode_eqb (a b : dcode) : bool :=
+  (dc_max_stack a =? dc_max_stack b) && (dc_max_locals a =? dc_max_locals b) && beq (dc_code a) (dc_code b)
+  && leq (peq (peq (peq Z.eqb Z.eqb) Z.eqb) (oeq beq)) (dc_exceptions a) (dc_exceptions b) && leq dattr0_eqb (dc_attrs a) (dc_attrs b).
+Definition dattr_eqb (a b : dattr) : bool :=
+  match a, b with
+  | ALeaf x, ALeaf y => dattr0_eqb x y
+  | AInnerClasses l, AInnerClasses l' => leq cinner_eqb l l'
+  | AEnclosingMethod c m, AEnclosingMethod c' m' => beq c c' && oeq (peq beq beq) m m'
+  | ASourceFile x, ASourceFile y | ASourceDebugExtension x, ASourceDebugExtension y | AModuleMainClass x, AModuleMainClass y | ANestHost x, ANestHost y => beq x y
+  | AModule x, AModule y => cmodule_eqb x y
+  | AModulePackages l, AModulePackages l' | ANestMembers l, ANestMembers l' | APermittedSubclasses l, APermittedSubclasses l' | AExceptions l, AExceptions l' => leq beq l l'
+  | ARecord l, ARecord l' => leq (fun x y => beq (dr_name x) (dr_name y) && beq (dr_desc x) (dr_desc y) && leq dattr0_eqb (dr_attrs x) (dr_attrs y)) l l'
+  | ABootstrapMethods l, ABootstrapMethods l' => leq (peq handle_eqb (leq Z.eqb)) l l'
+  | AConstantValue x, AConstantValue y => cvalue_eqb x y
+  | ACode x, ACode y => dcode_eqb x y
+  | AAnnotationDefault x, AAnnotationDefault y => elem_eqb x y
+  | AMethodParameters l, AMethodParameters l' => leq (peq (oeq beq) Z.eqb) l l'
+  | _, _ => false
+  end.
+Definition dmember_eqb (a b : dmember) : bool :=
+  (dm_access a =? dm_access b) && beq (dm_name a) (dm_name b) && beq (dm_desc a) (dm_desc b) && leq dattr_eqb (dm_attrs a) (dm_attrs b).
+Definition dclass_eqb (a b : dclass) : bool :=
+  (d_minor a =? d_minor b) && (d_major a =? d_major b) && (d_access a =? d_access b) && beq (d_name a) (d_name b)
+  && oeq beq (d_super a) (d_super b) && leq beq (d_interfaces a) (d_interfaces b)
+  && leq dmember_eqb (d_fields a) (d_fields b) && leq dmember_eqb (d_methods a) (d_methods b) && leq dattr_eqb (d_attrs a) (d_attrs b).
+
 (* positions in the implementation's answer are printed as naturals (N) *)
 Record itables := { i_exc : list (N * N * N); i_offs : list N; i_ranges : list (N * N) }.
 Inductive ianswer := IOk (code : list (N * N)) (t : itables) | IErr | IPanic.
@@ -61,8 +176,10 @@ Inductive case :=
        sm = the body of the StackMapTable attribute of the written method, if there is one *)
 | CBsm (entries : list (list N))
     (* the BootstrapMethods table of a written class, in file order (method_ref, arguments) *)
-| CClass (strings : list packed) (t : (N -> list N) -> cclass) (r : kanswer).
-    (* a whole tree (strings by index into the table) and the class file duke::write_class produced *)
+| CClass (strings : list packed) (t : (N -> list N) -> cclass) (r : kanswer) (dec : bool).
+    (* a whole tree (strings by index into the table) and the class file duke::write_class produced;
+       dec: the tree satisfies the hypotheses of the decode theorem (it was read by duke), so the decoder
+       of C02/Decode.v applied to the bytes must give the facts of the tree *)
 
 (* (instruction index, frame) pairs, ascending -> one optional frame per instruction *)
 Fixpoint dense (n : nat) (k : N) (fs : list (N * sframe)) : list (option sframe) :=
@@ -153,10 +270,13 @@ Definition check (c : case) : bool :=
       | LDC2_W _ => (form =? 20)%N
       end
   | CBsm es => check_bsm es
-  | CClass strings t r =>
+  | CClass strings t r dec =>
       let tbl := map unpacked strings in
-      match write_class (t (lookup tbl)), r with
-      | OK bs, KOk p => list_eqb N.eqb bs (unpacked p)
+      let tree := t (lookup tbl) in
+      match write_class_aux tree, r with
+      | OK (bs, aux), KOk p =>
+          list_eqb N.eqb bs (unpacked p)
+          && (negb dec || match facts_of tree aux, parse_class bs with Some d, Some d' => dclass_eqb d d' | _, _ => false end)
       | ERR, KErr => true
       | PANIC, KPanic => true
       | _, _ => false
